@@ -13,6 +13,16 @@ Families
                     call flag taken over; price() with every subset of arguments left None reads the
                     derivative's simulated state; equal (bitwise) to the functional form at features the
                     harness computes itself from the spot buffer, and equal to the expectation oracle.
+  scenario_args     a module bound to a scripted derivative is called with 1..n-1 of its arguments supplied as
+                    scenario tensors of the path's shape (shifted / ramped / permuted log-moneyness, shifted running
+                    max, halved / shifted time, scaled / per-path volatility; every combination) and the rest left
+                    None: bitwise the functional form at (supplied arguments, the derivative's OWN remaining state -
+                    in particular its simulated running maximum), and the expectation oracle on the in-domain cells.
+  multi_derivative  three derivatives with the same (kind, call flag, strike) but different scripted paths, shapes,
+                    sigma, dt and underlier type (Brownian / Heston) in one process; BlackScholes(d_i) built in all 6
+                    orders, creation and use interleaved or not; each module must be bound to ITS derivative and
+                    price()/delta() with all arguments omitted must equal the functional form / an unbound module at
+                    that derivative's state (bitwise) and the expectation oracle.
   law_crosscheck    model level, no pfhedge: the two routes to the running-maximum law (Girsanov
                     quadrature over driftless Brownian motion vs textbook closed survival function), the
                     layer-cake vs density form of the lookback expectation, the homogeneity reduction
@@ -564,16 +574,6 @@ def scenario_args(ctx, block):
     mods = {"BlackScholes": nn.BlackScholes(deriv), "from_derivative": getattr(nn, MODULE[product]).from_derivative(deriv)}
     snap = market.snapshot(deriv)
 
-    def mini_for_row(r):
-        mb = dict(block)
-        w = dict(block["world"])
-        base = w.get("rows")
-        if "other_path" in block.get("only", "other_path"):
-            return mb           # the permuted scenario needs the whole path set
-        w["rows"] = [base[r] if base is not None else r]
-        mb["world"] = w
-        return mb
-
     for label, mod in mods.items():
         for k in range(1, len(names)):                         # 1 .. n-1 supplied arguments
             for supplied in itertools.combinations(names, k):
@@ -641,22 +641,15 @@ def multi_derivative(ctx, block):
             ctx.tick(1, nontrivial=1)
             ctx.violation(site, "module_bound_to_another_derivative",
                           f"BlackScholes(d{i}) [{stage}] is bound to a different derivative object than d{i} "
-                          f"(worlds {block['worlds']}, order {block['order']})", observed="other derivative", expected=f"d{i}",
+                          f"(worlds {block['worlds']}, order {block['order']})", observed="other derivative", expected="the derivative it was built from",
                           block=mb, family="multi_derivative")
         ref = functional_at(product, own, K, call)
         for what in ("price", "delta"):
             if what == "delta":
-                unbound = make_module(product, K, call)
-                try:
-                    ref_d = unbound.delta(*[own[a] for a in names])
-                    out = mod.delta()
-                except Exception as e:      # noqa: BLE001 - the comparison is differential; C08/C18 own delta's value
-                    if type(e).__name__ in ("RuntimeError", "ValueError") and "size" in str(e):
-                        ctx.violation(site, "multi_derivative_delta_raises", f"BlackScholes(d{i}).delta() raised {e}",
-                                      observed=repr(e)[:200], expected="delta at its derivative's state", block=mb, family="multi_derivative")
-                        continue
-                    raise
-                r_ = ref_d
+                # differential: the bound module with all arguments omitted vs an unbound module of the same
+                # class fed the derivative's state explicitly (the value of delta itself is C08's subject)
+                r_ = make_module(product, K, call).delta(*[own[a] for a in names])
+                out = mod.delta()
             else:
                 out = mod.price()
                 r_ = ref
@@ -942,6 +935,31 @@ def run(ctx):
     ctx.alphabet("derivative_forms (A, T, dt, sigma, strike)", configs)
     jobs += [(30, "derivative_forms", b) for b in dblocks]
 
+    # ---- scenario arguments (some arguments supplied, the rest read from the derivative) ----
+    W1 = {"under": "brownian", "A": [0.75, 1.0, 1.5], "T": 3, "dt": 0.25, "sigma": 0.25}
+    W2 = {"under": "brownian", "A": [1.0, 1.25, 2.0], "T": 4, "dt": 0.125, "sigma": 0.5}
+    W3 = {"under": "heston", "A": [0.5, 1.5], "T": 3, "dt": 0.5, "sigma": 0.25}
+    for product in PRODUCTS:
+        for call in ([True, False] if HAS_PUT[product] else [True]):
+            for dname in ("float64", "float32"):
+                for world, K in ([(W1, 1.25)] if ctx.quick else [(W1, 1.25), (W2, 1.5), (W3, 1.25)]):
+                    if dname == "float32" and world is not W1:
+                        continue
+                    jobs.append((40, "scenario_args", {"product": product, "world": world, "strike": K, "call": call, "dtype": dname}))
+    # ---- several derivatives with the same (kind, call, strike) in one process ----
+    worlds = [W1, W2, W3]
+    ctx.alphabet("multi_derivative worlds", worlds)
+    for product in PRODUCTS:
+        for call in ([True, False] if HAS_PUT[product] else [True]):
+            for order in itertools.permutations(range(3)):
+                for inter in (False, True):
+                    for dname in ("float64", "float32"):
+                        if dname == "float32" and (ctx.quick and (order not in ((0, 1, 2), (2, 1, 0)))):
+                            continue
+                        first = order == (0, 1, 2) and not inter
+                        jobs.append((60 if first else 10, "multi_derivative",
+                                     {"product": product, "strike": 1.25, "call": call, "dtype": dname, "worlds": worlds,
+                                      "order": list(order), "interleave": inter, "oracle": first and dname == "float64"}))
     # ---- model level ----
     lblocks = []
     law_tv = [(T_BASE[2], V_BASE[1]), (T_BASE[-1], V_BASE[-1]), (T_BASE[0], V_BASE[0])]
